@@ -46,6 +46,11 @@ func hostileCrewMessages() []interface{} {
 		J(`{"to":"captain","update":{"m":{"spec":{"url":"file:///nonexistent/spec.yaml"}}}}`),
 		J(`{"to":"captain","update":{"m":{"spec":{"name":"only-a-name"}}}}`),
 		J(`{"to":"captain","update":{"m":{"state":{"node":"nowhere","bs":null}}}}`),
+		J(`{"to":"captain","update":{"timers":{"state":{"node":"start","bs":{"timers":{"x":null}}}}}}`),
+		J(`{"to":"captain","update":{"timers":{"state":{"node":"start","bs":{"timers":{"x":{"id":"x"},"y":5,"z":[1]}}}}}}`),
+		J(`{"to":"captain","update":{"timers":{"state":{"node":"start","bs":{"timers":null}}}}}`),
+		J(`{"to":"captain","update":{"timers":{}}}`),
+		J(`{"to":"captain","update":{"captain":{"state":{"node":"do","bs":{"?op":{"delete":["rec"]}}}}}}`),
 		J(`{"to":"captain","update":5}`),
 		J(`{"to":"captain","update":[1,2]}`),
 		J(`{"to":"captain","delete":["never-there"]}`),
